@@ -56,6 +56,14 @@ Example C14_raw_identifier_names :
   to_snake_case "rr#a" = "rr#a".
 Proof. vm_compute. repeat split; reflexivity. Qed.
 
+(* identifiers with letters of the Latin-1 supplement: the name functions follow Unicode case mapping there
+   (sharp s upper-cases to "SS"); anything beyond U+00FF is outside the model *)
+Example C14_latin1_names :
+  to_snake_case "ÉtatFinal" = "état_final" /\ to_snake_case "HTTPÉtat" = "http_état" /\
+  to_pascal_case "prüfen_größe" = "PrüfenGröße" /\ to_pascal_case "ß_x" = "SSX" /\
+  is_snake_case "démarrer" = true /\ is_snake_case "Écluse" = false /\ is_snake_case "a×b" = false.
+Proof. vm_compute. repeat split; reflexivity. Qed.
+
 Example C14_example : WF ex_defn.
 Proof. apply (accepted_is_wf ex_defn ex_machine). exact ex_front. Qed.
 
